@@ -96,7 +96,13 @@ def static_check(text):
         mapping[index] = shift + len(routine_part) + position
     identity = {id(inst): position for position, inst in enumerate(code)}
     for index, inst in enumerate(before):
-        if identity.get(id(inst)) != mapping[index]:
+        loaded = code[mapping[index]] if mapping[index] < len(code) else None
+        same = identity.get(id(inst)) == mapping[index]
+        if not same and loaded is not None and inst.op_code is OpCode.JUMP:
+            # the loader may replace a jump by a copy with a new offset
+            same = (loaded.op_code is OpCode.JUMP and
+                    loaded.param0 is inst.param0)
+        if not same:
             problems.append(('relocation-map',
                              'instruction {} {} was loaded at {} but its '
                              'place by structure is {}'.format(
@@ -135,7 +141,12 @@ def static_check(text):
                              'jump at {} targets {} outside the {}-instruction '
                              'program'.format(index, target, len(before))))
             continue
-        post = mapping[index] + offset
+        loaded_offset = code[mapping[index]].param1
+        if not isinstance(loaded_offset, int):
+            problems.append(('jump-unpatched', 'loaded jump at {} has offset '
+                             '{!r}'.format(mapping[index], loaded_offset)))
+            continue
+        post = mapping[index] + loaded_offset
         # Falling into a routine definition means continuing behind it.
         starts = {start: end for start, end in ranges_pre.values()
                   if end is not None}
